@@ -207,6 +207,12 @@ def judge_history(hist, part, deep=True):
 
     reg.add(f"vfmarker{next(_MARK)}", 1.0 + next(_MARK), D_.length)
     model = Model()
+    # shallow copies of a registry (copy.copy, and the ones Unit.copy() makes) are other handles on the SAME table: an edit through
+    # one handle is an edit of that table, so every handle must answer with the current contents
+    import copy as _copy
+
+    twin = _copy.copy(reg)
+    handles = [reg, twin]
     captured = []  # (probe, step, Unit object, facts at capture)
     held = []  # (spelling, step, quantity 6.0 <spelling> created then, facts then)
     kinds = []
@@ -214,7 +220,7 @@ def judge_history(hist, part, deep=True):
         part.ev()
         want = model.apply(op)
         try:
-            lib_apply(reg, op)
+            lib_apply(handles[(step + len(hist)) % 2] if op != "def_baz" else reg, op)
             got = "ok"
         except Exception as e:
             got = type(e).__name__
@@ -250,6 +256,7 @@ def judge_history(hist, part, deep=True):
                                                                            "dim_then": T.dim_name(facts[1]), "dim_now": T.dim_name(cur[1]), "got": got_v, "error": err, "want": want_v}))
                     return out
         # probe sweep
+        ucopy_reg = Unit("m", registry=reg).copy().registry
         for probe in PROBES:
             exp = _eval_probe(model, probe)
             obs = observe(reg, probe)
@@ -270,6 +277,12 @@ def judge_history(hist, part, deep=True):
             if obs[2] != exp[1] or abs(obs[1] / exp[0] - 1) > 1e-12:
                 out.append((f"C12:stale-after-{edit_kind}:{spell}:{sym}", {"history": hist[: step + 1], "probe": probe, "got": [obs[1], T.dim_name(obs[2])], "want": [exp[0], T.dim_name(exp[1])]}))
                 return out
+            for hname, h in (("shallow-copy", twin), ("unit-copy", ucopy_reg)):
+                obs2 = observe(h, probe)
+                if obs2 != obs and not (obs2[0] == obs[0] == "unit" and obs2[2] == obs[2] and abs(obs2[1] / obs[1] - 1) < 1e-14):
+                    out.append((f"C12:stale-after-{edit_kind}:handle-disagrees:{hname}:{spell}:{sym}", {"history": hist[: step + 1], "probe": probe, "through_registry": obs, "through_handle": obs2,
+                                                                                                      "edited_through": "registry" if (step + len(hist)) % 2 == 0 else "shallow copy"}))
+                    return out
             if step + 1 < len(hist) and probe in ("foo", "kfoo", "foo**2/s", "pc", "qux"):
                 captured.append((probe, step, Unit(probe, registry=reg), (obs[1], obs[2], obs[3])))
                 if probe in ("foo", "pc", "kfoo"):
